@@ -22,7 +22,7 @@ def index_values(draw, code, rows):
     """Index column values (as Python numbers) of a given pattern, inside the dtype's range."""
     dt = np.dtype(code)
     pattern = draw(st.sampled_from(['uniform', 'uniform', 'uniform-dec', 'nearly', 'monotone', 'monotone-dec',
-                                    'constant', 'random', 'outside-tol']))
+                                    'constant', 'random', 'outside-tol', 'nan-hides-turn']))
     if dt.kind in 'iu':
         info = np.iinfo(dt)
         lo, hi = int(info.min), int(info.max)
@@ -74,6 +74,15 @@ def index_values(draw, code, rows):
             vals = vals[::-1]
     elif pattern == 'constant':
         vals = [start] * rows
+    elif pattern == 'nan-hides-turn' and rows >= 4:
+        # rising (or falling) values, a NaN, then a restart on the other side: every finite difference has one sign, yet
+        # the finite values are not monotone
+        sign = draw(st.sampled_from([1.0, -1.0]))
+        k = draw(st.integers(2, rows - 2))
+        vals = [start + sign * i * step for i in range(k)] + [float('nan')]
+        restart = start - sign * step * draw(st.integers(1, 5))
+        vals += [restart + sign * i * step for i in range(rows - k - 1)]
+        return vals, 'nan-hides-turn'
     else:
         vals = [draw(st.floats(-1e6, 1e6)) for _ in range(rows)]
     if draw(st.integers(0, 24)) == 0 and rows >= 2:
@@ -92,6 +101,9 @@ def cases(draw, two_writes=False):
         arr = np.array(vals, dtype=np.float64 if code[0] == 'f' else object).astype(bo + code)
     indexed = draw(st.integers(0, 5)) != 0
     units = draw(st.sampled_from([None, 'm', 's', 'ft']))
+    if not indexed and not two_writes and draw(st.booleans()):
+        # no index type: the first channel is an ordinary channel and may hold several samples per row
+        arr = np.repeat(arr.reshape(rows, 1), draw(st.integers(2, 4)), axis=1)
     ops = [{'t': 'origin', 'name': 'O', 'attrs': {'file_set_number': {'v': 1, 'r': 'kw'},
                                                    'creation_time': {'v': {'$dt': '2001-02-03T04:05:06', 'tz': 0},
                                                                      'r': 'kw'}}},
@@ -240,7 +252,15 @@ def judge_frame(dlf, fo, user, indexed):
     if 'spacing' in user:
         return out
     if has_nan:
-        return out      # differences involving NaN: uniformity is undefined; nothing demanded
+        # differences involving NaN: uniformity is undefined and nothing is demanded - but a DIRECTION that is written
+        # must at least not be contradicted by the finite values taken in row order
+        if 'direction' not in user and len(finite) >= 2:
+            fd = [finite[i + 1] - finite[i] for i in range(len(finite) - 1)]
+            if direction == 'INCREASING' and any(d < 0 for d in fd):
+                out.append(('direction-contradicted-by-values', 'with-nan', f"DIRECTION INCREASING, finite values {finite[:8]}"))
+            if direction == 'DECREASING' and any(d > 0 for d in fd):
+                out.append(('direction-contradicted-by-values', 'with-nan', f"DIRECTION DECREASING, finite values {finite[:8]}"))
+        return out
     if spacing is not None and isinstance(spacing, float) and math.isnan(spacing):
         out.append(('spacing-nan', 'single-row' if not D else tag, f"SPACING is NaN for NaN-free index {exact[:6]}"))
         return out
